@@ -21,6 +21,7 @@ from . import fsmodel as FSM, boundary
 OU = "pyxel/outputs/utils.py"
 BOUNDED = {
     r'^save ': 'request lists of 1..3 file names (one bucket requested twice, non-adjacent)',
+    r'^save\.method': 'requests of 1..3 buckets with 1..3 formats each (an image format before lossless ones included)',
     r'^names build\.names': 'a save configuration of two buckets and three formats',
 }      # unit-name / obligation-name patterns -> the family these obligations are proved for
 OO = "pyxel/outputs/outputs.py"
@@ -392,3 +393,143 @@ def save_unit(u: Unit):
                 rep_ok = got == want
             u.oblige(p, f"save.reported_once_per_name[{tag}]", bool(rep_ok), {}, SAVE_REPLAY)
         u.cover(f"save.cover[{tag}]", [1] * n_ret, lambda _: True)
+
+
+# ---- Outputs.save_to_file: the per-run writer of the sequential observation path -----------------------------------------------------
+METHOD_REPLAY = lambda w: {"code": """
+import numpy as np, tempfile, pathlib, warnings, verif_probes as VP
+from pyxel.outputs import ObservationOutputs
+from pyxel.pipelines import DetectionPipeline, Processor
+warnings.simplefilter('ignore')
+VIOLATED, DETAIL = False, 'every requested (bucket, format) of the run was written once from its own bucket and reported under its own name'
+det = VP.detector(rows=2, cols=3, adc_bit_resolution=16)
+det.pixel.array = np.full((2, 3), 5.0); det.signal.array = np.full((2, 3), 0.5); det.image.array = np.full((2, 3), 7000, dtype=np.uint16)
+proc = Processor(detector=det, pipeline=DetectionPipeline())
+root = pathlib.Path(tempfile.mkdtemp())
+out = ObservationOutputs(output_folder=root, save_data_to_file=[{'detector.image.array': ['png', 'npy', 'fits']}, {'detector.pixel.array': ['npy']}, {'detector.signal.array': ['npy', 'txt']}])
+out.create_output_folder() if hasattr(out, 'create_output_folder') else None
+folder = pathlib.Path(out.current_output_folder)
+want = {'image': np.full((2, 3), 7000), 'pixel': np.full((2, 3), 5.0), 'signal': np.full((2, 3), 0.5)}
+for run in (0, 1):
+    tree = out.save_to_file(processor=proc, run_number=run)
+    for bucket, fmts in (('image', ['png', 'npy', 'fits']), ('pixel', ['npy']), ('signal', ['npy', 'txt'])):
+        names = {str(k): str(v) for k, v in zip(np.atleast_1d(tree[f'/{bucket}']['filename'].coords['data_format'].values), np.atleast_1d(tree[f'/{bucket}']['filename'].values))}
+        if sorted(names) != sorted(fmts):
+            VIOLATED, DETAIL = True, f'run {run}: formats reported for {bucket}: {sorted(names)} (requested {fmts})'; break
+        for fmt, name in names.items():
+            f = folder / name
+            if not f.exists() or not name.endswith('.' + fmt) or f'_{run}.' not in name and f'_{run + 1}.' not in name:
+                VIOLATED, DETAIL = True, f'run {run}: reported file {name} for {bucket}/{fmt} missing or misnamed'; break
+            if fmt == 'png': continue
+            data = np.load(f) if fmt == 'npy' else (np.loadtxt(f, delimiter='|') if fmt == 'txt' else __import__('astropy.io.fits', fromlist=['x']).getdata(f))
+            if not np.array_equal(np.asarray(data, dtype=float), want[bucket].astype(float)):
+                VIOLATED, DETAIL = True, f'run {run}: {name} holds {np.asarray(data).ravel()[:2]}, the {bucket} bucket holds {want[bucket].ravel()[:2]}'; break
+    if VIOLATED: break
+""", "expect": "Outputs.save_to_file writes one file per requested (bucket, format) from that bucket and reports it under that bucket and format"}
+
+
+@unit("C19", "save.method")
+def save_method_unit(u: Unit):
+    """Outputs.save_to_file (used per run by the sequential observation path): for every requested bucket that holds data and every
+    requested format exactly one to_<format>(current_output_folder = this run's folder, data = np.array(processor.get(<that bucket>)),
+    name = <that bucket's key>, run_number = this run's number), image formats only for the digitised image; the reported mapping has,
+    per bucket key and format, the name of the file that call returned. Requests: 1..3 buckets with 1..2 formats (bounded)."""
+    fi = u.fn(f"{OO}::Outputs.save_to_file")
+    oci = u.cls(f"{OO}::Outputs")
+    requests = [[("detector.image.array", ["npy"])], [("detector.image.array", ["npy", "fits"]), ("detector.pixel.array", ["npy"])],
+                [("detector.signal.array", ["txt", "npy"]), ("detector.image.array", ["png"]), ("detector.pixel.array", ["fits"])],
+                [("detector.image.array", ["jpg", "fits", "npy"])]]
+    WR = {"fits": "to_fits", "hdf": "to_hdf", "npy": "to_npy", "txt": "to_txt", "csv": "to_csv", "png": "to_png", "jpg": "to_jpg", "jpeg": "to_jpg"}
+    for req in requests:
+        cfg = Cfg("real")
+        boundary.install(cfg)
+        FSM.install(cfg)
+        for wname in sorted(set(WR.values())):
+            q = f"{OU}::{wname}"
+
+            def wr(ex, args, kwargs, fr, wname=wname):
+                i = len(ex.hold["writes"])
+                ex.hold["writes"].append((wname, list(args), dict(kwargs)))
+                return VOpaque("xr", ex.st.fresh_int("path"), {"label": f"written{i}", "truthy": True})
+            cfg.contracts[q] = Contract(q, wr, "C19.write: one fresh file, refuses existing ones")
+        cfg.contracts[f"{OO}::_dict_to_datatree"] = Contract(f"{OO}::_dict_to_datatree", lambda ex, args, kwargs, fr: (ex.hold.__setitem__("reported", args[0] if args else kwargs.get("all_filenames")),
+                                                                                                              VOpaque("xr", ex.st.fresh_int("tree"), {"label": "tree"}))[1], "report (boundary)")
+        cfg.lib_overrides[("np.array_of",)] = lambda ex, v, dtype, fr: VOpaque("xr", ex.st.fresh_int("arr"), {"label": "np.array", "of": v})
+        cfg.lib_overrides["astropy.io.fits.Header"] = lambda ex, f, args, kwargs, fr: VOpaque("xr", ex.st.fresh_int("hdr"), {"label": "header"})
+        base_call = cfg.lib_overrides[("call", "xr")]
+
+        def call(ex, f, args, kwargs, fr):
+            r = base_call(ex, f, args, kwargs, fr)
+            lab = str(f.info.get("label", ""))
+            if lab == "processor.get":
+                r.info["bucket_key"] = args[0] if args else kwargs.get("key")
+                r.info["truthy"] = True
+            if lab.endswith("pipeline.describe"):
+                return ex.st.alloc(HList([]))
+            return r
+        cfg.lib_overrides[("call", "xr")] = call
+        cfg.lib_overrides[("binop", "xr")] = lambda ex, op, a, b: VOpaque("xr", ex.st.fresh_int("xr"), {"label": "rescaled", "of": a if isinstance(a, VOpaque) and a.info.get("label") != "rescaled" else b, "scaled": True})
+        base_attr = cfg.lib_overrides[("opaque_attr", "xr")]
+
+        def attr(ex, obj, name, fr):
+            if name == "adc_bit_resolution":
+                return VInt(8)
+            if name == "name" and str(obj.info.get("label", "")).startswith("written"):
+                return VStr(z3.String(f"name_of_{obj.info['label']}"))
+            return base_attr(ex, obj, name, fr)
+        cfg.lib_overrides[("opaque_attr", "xr")] = attr
+        cfg.lib_overrides[("identical_none", "xr")] = None
+
+        def setup(ex, req=req):
+            h = ex.hold = {"writes": []}
+            h["proc"] = VOpaque("xr", None, {"label": "processor", "truthy": True})
+            h["folder"] = FSM.mk_path(ex, "/out/run_1")
+            sd = ex.st.alloc(HList([ex.st.alloc(HDict([(VStr(k), ex.st.alloc(HList([VStr(f) for f in fmts])))])) for k, fmts in req]))
+            me = ex.st.alloc(HObj(oci, {"save_data_to_file": sd, "current_output_folder": h["folder"], "_current_output_folder": h["folder"]}))
+            return [me], {"processor": h["proc"], "run_number": VInt(z3.Int("run_number"))}
+        tag = "+".join(k.split(".")[1] + ":" + "/".join(f) for k, f in req)
+        ps = u.paths(fi, setup, cfg, label=f"Outputs.save_to_file[{tag}]")
+        n_ret = 0
+        for p in ps:
+            if p.kind != "return":
+                u.oblige(p, f"save.method.no_raise[{tag}]", False, {"exc": p.exc_name(), "msg": str(p.st.cell(p.value).fields.get("args"))[:200]}, METHOD_REPLAY)
+                continue
+            n_ret += 1
+            ws = p.ex.hold["writes"]
+            want = [(k, f) for k, fmts in req for f in fmts]
+            ok = len(ws) == len(want)
+            detail = ""
+            for (wname, a, kw), (k, f) in zip(ws, want):
+                d = kw.get("data")
+                src, chain = d, []
+                while isinstance(src, VOpaque) and "bucket_key" not in src.info and len(chain) < 8:
+                    if src.info.get("label") in ("rescaled", "np.array"):
+                        chain.append(src.info["label"])
+                        src = src.info.get("of")
+                    elif src.info.get("fn") is not None:
+                        chain.append("." + str(src.info["fn"].info.get("attr")))
+                        src = src.info["fn"].info.get("of")
+                    else:
+                        break
+                key = src.info.get("bucket_key") if isinstance(src, VOpaque) else None
+                # lossless formats get the bucket itself; the 8-bit previews a rescaled copy of it
+                shape_ok = chain == ([".astype", "rescaled", "np.array"] if f in ("png", "jpg", "jpeg") else ["np.array"])
+                good = (shape_ok and not a and wname == WR[f] and kw.get("current_output_folder") is p.ex.hold["folder"] and isinstance(key, VStr) and key.v == k
+                        and isinstance(kw.get("name"), VStr) and str(z3.simplify(z_str(kw["name"].v))).strip('"') == k and isinstance(kw.get("run_number"), VInt) and z3.eq(z_int(kw["run_number"].v), z3.Int("run_number")))
+                if not good:
+                    ok, detail = False, f"{k}/{f}: {wname}(name={kw.get('name')}, data = {' of '.join(chain)} of {getattr(key, 'v', key)})"
+                    break
+            u.oblige(p, f"save.method.one_write_per_bucket_and_format_from_that_bucket[{tag}]", bool(ok), {"detail": detail, "writes": len(ws)}, METHOD_REPLAY)
+            rep = p.ex.hold.get("reported")
+            rd = p.ex.try_dict(rep) if rep is not None else None
+            got = {}
+            for k, v in rd or []:
+                inner = p.ex.try_dict(v)
+                got[k.v] = {kk.v: str(z3.simplify(z_str(vv.v))).strip('"') if isinstance(vv, VStr) else None for kk, vv in inner or []}
+            exp, i = {}, 0
+            for k, fmts in req:
+                for f in fmts:
+                    exp.setdefault(k, {})[f] = f"name_of_written{i}"
+                    i += 1
+            u.oblige(p, f"save.method.reported_under_its_own_bucket_and_format[{tag}]", got == exp, {"got": str(got)[:300]}, METHOD_REPLAY)
+        u.cover(f"save.method.cover[{tag}]", [1] * n_ret, lambda _: True)
